@@ -31,7 +31,7 @@ ASSUMPTIONS = [
     "blocking is not modelled: a thread of model/Conc.v can always take its next step, so the theorem says nothing about calls "
     "waiting for each other. The translator lists package-level channels / sync primitives / atomics (pkg_sync_vars, obligation "
     "globals_no_sync_state: none today) and channel operations on package variables; at run time every phase of every batch runs "
-    "under a deadline (10 x estimated sequential time, at least 20 s) and a phase that does not return is a violation of class "
+    "under a deadline (10 x estimated sequential time, at least 20 s, at most 90 s) and a phase that does not return is a violation of class "
     "deadlock with the blocked goroutine stacks",
     "race detector: reports only races that occur in the executed interleavings; absence of a report is evidence, not proof",
 ]
@@ -151,7 +151,11 @@ def _violations(rc, o, batches):
             inp = _params(b)
             inp.update({'phase': h['phase'], 'deadline_s': h['deadline_s'], 'goroutines_blocked_in_in_toto': h['goroutines_blocked_in_in_toto'],
                         'blocked_stacks': h['blocked_stacks'], 'trees': b.get('trees'), 'tasks': b.get('tasks')})
-            frames = _in_toto_frames('\n'.join(h['blocked_stacks']))
+            frames = []
+            for fr in re.findall(r'in_toto\.([A-Za-z0-9_.()*]+)\(', '\n'.join(h['blocked_stacks'])):
+                fr = re.sub(r'\.func\d+(\.\d+)*$', '', fr)
+                if fr not in frames:
+                    frames.append(fr)
             impl = 'the %s phase did not finish within %.0f s: %d goroutines blocked inside in_toto (%s)' % (
                 h['phase'], h['deadline_s'], h['goroutines_blocked_in_in_toto'], ', '.join(frames[:5]))
         else:
@@ -216,6 +220,8 @@ def correspondence(ctx):
     # first use is first used concurrently (in the long run above only the very first batches are cold)
     cold_mixes = ['mixed', 'rare-paths', 'record-symlinks', 'crypto-metadata', 'run', 'verify']
     ncold = 3 if ctx.tier == 'quick' else 25
+    if rc in (77, 124):
+        ncold = 0   # the long run already ended in a call that does not return: no need to wait for that again
     for i in range(ncold):
         rc2, o2, b2 = _run(ctx, ('32' if i % 2 == 0 else '8', 1, '0', '0', cold_mixes[i % len(cold_mixes)]), 'cold', seed_off=1000 + i)
         for b in b2:
